@@ -68,6 +68,11 @@ def _exclusive(parents, a, b):
             return False
         if isinstance(p, ast.If) and id(p) in chain_b and field in ("body", "orelse") and chain_b[id(p)] in ("body", "orelse") and chain_b[id(p)] != field:
             return True
+        if isinstance(p, ast.If) and id(p) not in chain_b and field in ("body", "orelse"):
+            # an arm that always leaves the function (ends in return / raise): nothing defined in it reaches later code
+            arm = getattr(p, field)
+            if arm and isinstance(arm[-1], (ast.Return, ast.Raise)):
+                return True
     return False
 
 
@@ -146,8 +151,14 @@ def check_tape_scope(repo, chk, prefixes, rule="T-tape", min_functions=1):
                     if isinstance(c, ast.Call) and isinstance(c.func, ast.Attribute) and c.func.attr in TAYLOR_WRAPPERS:
                         for x in ast.walk(c):
                             taylor.add(id(x))
+                # the body of a lambda / nested def is evaluated where it is CALLED, not where it is written
+                deferred = set()
                 for c in ast.walk(rhs):
-                    if not isinstance(c, ast.Call) or id(c) in taylor:
+                    if isinstance(c, (ast.Lambda, ast.FunctionDef)):
+                        for x in ast.walk(c.body if isinstance(c, ast.Lambda) else ast.Module(body=c.body, type_ignores=[])):
+                            deferred.add(id(x))
+                for c in ast.walk(rhs):
+                    if not isinstance(c, ast.Call) or id(c) in taylor or id(c) in deferred:
                         continue
                     fn_ = c.func
                     if isinstance(fn_, ast.Name) and fn_.id in params:
@@ -157,6 +168,12 @@ def check_tape_scope(repo, chk, prefixes, rule="T-tape", min_functions=1):
                         while isinstance(root, (ast.Attribute, ast.Subscript, ast.Call)):
                             root = root.value if not isinstance(root, ast.Call) else root.func
                         if isinstance(root, ast.Name) and (root.id == "self" or root.id in params) and root.id not in ("tf", "np"):
+                            # a helper of the class that never touches the object (a @staticmethod, or a body without
+                            # `self`) cannot evaluate the model
+                            if root.id == "self" and isinstance(fn_.value, ast.Name) and f.cls is not None:
+                                h_ = f.cls.lookup(fn_.attr)
+                                if h_ is not None and (any(isinstance(d_, ast.Name) and d_.id == "staticmethod" for d_ in h_.node.decorator_list) or not any(isinstance(x, ast.Name) and x.id == "self" for b_ in h_.node.body for x in ast.walk(b_))):
+                                    continue
                             out.append(c)
                 return out
 
